@@ -179,6 +179,43 @@ def join_tasks(tier, role):
 
 # ------------------------------------------------------------------------------------ interval join
 
+def _native_interval(ex, lower, upper, script):
+    """the real IntervalJoin on the concretised script (replay kind `interval_join`, SPEC sixth batch)"""
+    import re
+    from mirsym.executor import RustPanic
+    args = [2, hlib.concrete_int(ex, lower), hlib.concrete_int(ex, upper)]
+    tags = hlib.SE_VARIANTS
+    for e in script:
+        args.append(tags[e.variant])
+        if e.variant == 'Timestamped':
+            key, me = e.fields[0].fields
+            args += [hlib.concrete_int(ex, key), 2 * me.fields[0].v + (0 if me.variant == 'Left' else 1),
+                     hlib.concrete_int(ex, e.fields[1])]
+        elif e.variant == 'Watermark':
+            args.append(hlib.concrete_int(ex, e.fields[0]))
+    runner, prof = ex.env['native']
+    ex.env['native_used'] = True
+    txt = runner('interval_join', args)[prof]
+    ex.env['native_out'] = txt
+    if txt == 'PANIC':
+        raise RustPanic('the real IntervalJoin panicked on this input')
+    if txt.startswith(('BADARGS', 'UNKNOWN', 'NORESULT', 'TIMEOUT')):
+        raise Unsupported('native driver: ' + txt)
+    out = []
+    for tok in txt.split():
+        if tok == 'OVERRUN':
+            raise Violation('IntervalJoin does not terminate on this input (native run overran)', hlib._wit(ex))
+        m = re.match(r'^([TI])\((\d+):(\d+)-(\d+)(?:@(-?\d+))?\)$', tok)
+        if m:
+            pl = Agg('tuple', None, [Int('u64', int(m.group(2))),
+                                     Agg('tuple', None, [Int('u64', int(m.group(3))), Int('u64', int(m.group(4)))])])
+            out.append(hlib.se('Timestamped', pl, Int('i64', int(m.group(5)))) if m.group(1) == 'T' else hlib.se('Item', pl))
+        else:
+            out.append(hlib.parse_token(tok))
+    ex.env['last_output'] = out
+    return out
+
+
 def interval_join_harness(w, n, iters):
     new = w.impls[(None, 'IntervalJoin')]['new'][0]
     nxt = w.impls[('Operator', 'IntervalJoin')]['next'][0]
@@ -213,8 +250,11 @@ def interval_join_harness(w, n, iters):
             script.append(hlib.se('FlushAndRestart'))
             meta.append((lefts, rights))
         script.append(hlib.se('Terminate'))
-        op = ex.call_function(new, [hlib.Upstream(script), lower, upper])
-        out = hlib.drive(ex, nxt, [op], (n * n + 4) * iters + 6)
+        if ex.env.get('native'):
+            out = _native_interval(ex, lower, upper, script)
+        else:
+            op = ex.call_function(new, [hlib.Upstream(script), lower, upper])
+            out = hlib.drive(ex, nxt, [op], (n * n + 4) * iters + 6)
         sx = lambda: {'lower': repr(lower), 'upper': repr(upper), 'script': [repr(e) for e in script],
                       'output': [repr(e) for e in out]}
         hlib.check_grammar(ex, out, iters, 'interval join output')
